@@ -240,7 +240,7 @@ func TestC20Chain(t *testing.T) {
 			idx++
 			continue
 		}
-		em.Marker("begin", idx)
+		stBegin(em, idx)
 		log := &chainLog{}
 		slog := &chainLog{}
 		var sopts []goat.ServerOption
@@ -323,7 +323,7 @@ func TestC20Chain(t *testing.T) {
 		em.Emit(Rec{Idx: idx, Kind: "chain-e2e", Desc: map[string]any{"stream": c.stream, "client": cbd, "bs": behsDesc(c.bs), "herr": c.herr},
 			Tags: tags,
 			Coq:  fmt.Sprintf("CChainE2E %s %s %s %d %s", coqBool(c.stream), cb, behsCoq(c.bs), c.herr, cresCoq(rep, ecode, evs))})
-		em.Marker("end", idx)
+		stEnd(em, idx)
 		idx++
 	}
 }
